@@ -173,7 +173,7 @@ Definition cat_res (l : list (res bytes)) : res bytes := fold_right emitr (Ok []
 
 (* ---- the whole vocabulary ----
    [vw] = how a format text is read ([fun f => f] in the property; the code reads it through
-   text/scanner, [sc_view]); [nolit] = what a %v argument without a value literal renders to
+   text/scanner with a byte order mark of its own in front, [sc_view]); [nolit] = what a %v argument without a value literal renders to
    (unspecified in the property = [OutOfFuel], which no observation equals; the code panics). *)
 Section Spec.
   Variable vw : bytes -> bytes.
@@ -200,7 +200,7 @@ End Spec.
 
 Definition same (f : bytes) : bytes := f.
 
-(* ---- the domain: formats are well-formed UTF-8 without a leading U+FEFF; every %v argument has a literal ---- *)
+(* ---- the domain: formats are well-formed UTF-8; every %v argument has a literal ---- *)
 Fixpoint utf8_go (s : bytes) (skip : nat) : bool :=
   match s with
   | [] => true
@@ -223,18 +223,6 @@ Inductive utf8 : bytes -> Prop :=
 | U3 b0 b1 b2 r : wf3 b0 b1 b2 = true -> utf8 r -> utf8 (b0 :: b1 :: b2 :: r)
 | U4 b0 b1 b2 b3 r : wf4 b0 b1 b2 b3 = true -> utf8 r -> utf8 (b0 :: b1 :: b2 :: b3 :: r).
 
-Definition fmt_ok (f : bytes) : bool := utf8b f && negb (has_bom f).
-
-(* every format in [s] is read transparently by text/scanner *)
-Fixpoint fmts_ok (s : snip) : bool :=
-  match s with
-  | ST f args => fmt_ok (trim_nl f) && forallb (fun p => fmts_ok (snd p)) args
-  | SSprintf f args => fmt_ok f && forallb fmts_ok args
-  | SSnippets l => forallb fmts_ok l
-  | SFragments x => fmts_ok x
-  | _ => true
-  end.
-
 (* every format in [s] is well-formed UTF-8 (the property's domain) *)
 Fixpoint fmts_utf8 (s : snip) : bool :=
   match s with
@@ -245,7 +233,9 @@ Fixpoint fmts_utf8 (s : snip) : bool :=
   | _ => true
   end.
 
-(* known-finding class leading_bom: some format starts (after the trimmed newlines) with U+FEFF *)
+(* input feature (until fixes/C09-5-leading-bom.diff the known-finding class leading_bom): some format starts
+   (after the trimmed newlines) with U+FEFF.  No theorem about the repaired code mentions it; the correspondence
+   check keeps comparing it with the harness's own classifier, and C09_template_refuted_before_fix uses a member. *)
 Fixpoint cls_bom (s : snip) : bool :=
   match s with
   | ST f args => has_bom (trim_nl f) || existsb (fun p => cls_bom (snd p)) args
